@@ -6,5 +6,6 @@ CONSTANTS MaxMembers = 2
  OutBuf = 3
 INVARIANT RRejectsDamagedFirst
 INVARIANT RAcceptsFirstMember
+INVARIANT RReadBack
 PROPERTY Terminates
 CHECK_DEADLOCK FALSE
